@@ -1,5 +1,5 @@
 _c20_common = dict(harness="C20_readonly.cpp", entries=["harness_c20"], units=CORE, unwind=70, object_bits=13, checks="none", ll2c_flags=["--store-hook"], keep_atomics=True,
-                   rt_extra=["rt_c20.c"], rt_defines=["V_C20"], unwindset=["v_is_shared.1:601"], timeout={"quick": 900, "thorough": 2400}, mem_gb=6)
+                   rt_extra=["rt_c20.c"], rt_defines=["V_C20"], unwindset=["v_is_shared.1:601"], timeout={"quick": 900, "thorough": 2400}, mem_gb=3)
 PROPS["C20"] = dict(
   jobs=[
     dict(name="c20-core", witness_any=True, const_coverage=["14TopologyKernel", "15ResourceManager"], **_c20_common,
